@@ -121,3 +121,26 @@ Theorem C17_quote_marker_respelling :
   q_sCount q1 = q_sCount q2 /\ q_bsCount q1 = q_bsCount q2 /\ q_empty q1 = q_empty q2.
 Proof. exact bq_strip_respelling. Qed.
 Print Assumptions C17_quote_marker_respelling.
+
+(* ---- tabs behind a list marker ------------------------------------------------------------------ *)
+(* the list rule's scan of the blanks after a marker: with offset the column after the marker and bs
+   the line's bsCount it returns the real column the blanks reach (minus bs) ... *)
+Theorem C17_list_marker_blanks_are_columns :
+  forall ws fuel src pos mx offset bs,
+  Forall blank ws -> chars_at src pos ws -> stop_at src (pos + len ws) mx ->
+  (length ws < fuel)%nat -> 0 <= pos -> pos + len ws <= mx ->
+  list_blanks fuel src pos mx offset bs = Ok (pos + len ws, cols (offset + bs) ws - bs).
+Proof. exact list_blanks_exact. Qed.
+Print Assumptions C17_list_marker_blanks_are_columns.
+
+(* ... so two spellings that reach the same column give the item the same content column *)
+Theorem C17_list_marker_respelling :
+  forall src1 src2 p1 p2 mx1 mx2 offset bs ws1 ws2,
+  Forall blank ws1 -> Forall blank ws2 -> chars_at src1 p1 ws1 -> chars_at src2 p2 ws2 ->
+  stop_at src1 (p1 + len ws1) mx1 -> stop_at src2 (p2 + len ws2) mx2 ->
+  0 <= p1 -> 0 <= p2 -> p1 + len ws1 <= mx1 -> p2 + len ws2 <= mx2 -> mx1 <= len src1 -> mx2 <= len src2 ->
+  cols (offset + bs) ws1 = cols (offset + bs) ws2 ->
+  exists o, list_blanks (S (length src1)) src1 p1 mx1 offset bs = Ok (p1 + len ws1, o)
+         /\ list_blanks (S (length src2)) src2 p2 mx2 offset bs = Ok (p2 + len ws2, o).
+Proof. exact list_blanks_respelling. Qed.
+Print Assumptions C17_list_marker_respelling.
